@@ -677,6 +677,8 @@ class Lower:
         ghosts = self.ghost_for(name) + (self.ghost_for(ghost_key) if ghost_key else [])   # ghost_key: the C++ name of a default-rule callee
         for (fn, callee, when, code) in ghosts:
             if when == 'before':
+                for i, a in enumerate(argl):        # $0 $1 ...: the call's argument texts (side-effect-free arguments only)
+                    code = code.replace('$%d' % i, '(%s)' % a)
                 self.pre.append(code)
         after = [code for (fn, callee, when, code) in ghosts if when == 'after']
         if name in self.may_throw or after:
